@@ -78,6 +78,15 @@ let () = iter_lines (fun line ->
           Printf.printf "%s | %s\n" body g
         | Stuck -> print_endline "Stuck" | Fuel -> print_endline "Fuel" | Exn -> print_endline "Exn")
      | Stuck -> print_endline "Stuck(count)" | Fuel -> print_endline "Fuel(count)" | Exn -> print_endline "Exn")
+  | "GGRP" :: n :: ws ->
+    (* the GENERATED pvGroup on an array of item ids (equalFunc = same id): final arrangement *)
+    let n = int_of_string n in
+    let a = Array.of_list (Stdlib.List.map z_of_string ws) in
+    let items zi = let i = int_of_z zi in if i >= 0 && i < n then a.(i) else z_of_int (-1) in
+    let eqf x y = (string_of_z x = string_of_z y) in
+    (match Gen_Group.pvGroup eqf (nat_of_int (n + 3)) items (z_of_int 0) (z_of_int n) with
+     | Ok (_, items') -> print_endline (Stdlib.String.concat " " (Stdlib.List.init n (fun i -> string_of_z (items' (z_of_int i)))))
+     | Stuck -> print_endline "Stuck" | Fuel -> print_endline "Fuel" | Exn -> print_endline "Exn")
   | "GSEL" :: n :: ws ->
     (* the GENERATED pvSelectionSort on an array of codes: final item codes | groupFunc calls pos:count *)
     let n = int_of_string n in
